@@ -43,6 +43,10 @@ MARKER_PROPS = {
     "VF:collapse.after_clear_like_fresh": ["C08"],
     "VF:collapse.after_merge_like_fresh": ["C10"],
     "VF:collapse.clone": ["C11", "C09"],
+    "VF:collapse.plain": ["C11"],
+    "VF:collapse.after_merge_read": ["C11", "C10"],
+    "VF:slice.reserve": ["C10"],
+    "VF:columns.get": ["C13"],
     "VF:huffman.": ["C06"],
     "VF:huffman.read_differs_from_pushed": ["C06", "C01", "C02"],
     "VF:huffman.raw_roundtrip": ["C06", "C01"],
